@@ -4,7 +4,7 @@ from vf.runner import Inst
 
 PROPERTY = 'C17'
 LEVEL = 'model_checking'
-BOUNDS = {'quick': dict(bounds='1,2,3,5,7,8,16,255,256,257,1000,65536,65537,2^20, a 36-bit prime, 2^61-1', n='None,0,1,2,3', key='16 bytes'),
+BOUNDS = {'quick': dict(bounds='1,2,3,5,7,8,16,127,128,129,255,256,257,1000,2^15,65536,65537,2^20,2^31, a 36-bit prime, 2^61-1, 2^63', n='None,0,1,2,3', key='16 bytes'),
           'thorough': dict(bounds='as quick plus 2^127-1, 2^255-19', n='None,0..4')}
 OUTSIDE = ['SHAKE-128 itself (stubbed as an arbitrary XOF: prefix-consistent byte stream per (key, input))', 'shape-valued n (NumPy, C37)', 'pseudorandomness']
 ASSUMPTIONS = ['hashlib.shake_128(k+s).digest(n) returns the first n bytes of a stream that depends only on k+s']
@@ -23,7 +23,7 @@ def h(env):
     thresha = mods['mpyc.thresha']
     env.encoded(thresha.PRF.__init__, thresha.PRF.__call__)
     streams = {}
-    MAXB = 3 * 40
+    MAXB = 5 * 48
 
     class Shake:
         def __init__(self, data):
@@ -92,7 +92,7 @@ def h_twin(env):
 
 
 def instances(tier):
-    bounds = [1, 2, 3, 5, 7, 8, 16, 255, 256, 257, 1000, 65536, 65537, 1 << 20, P36, 2**61 - 1]
+    bounds = [1, 2, 3, 5, 7, 8, 16, 127, 128, 129, 255, 256, 257, 1000, 1 << 15, 65536, 65537, 1 << 20, 1 << 31, P36, 2**61 - 1, 1 << 63]
     if tier != 'quick':
         bounds += [2**127 - 1, 2**255 - 19]
     ns = [0, 1, 2, 3] if tier == 'quick' else [0, 1, 2, 3, 4]
